@@ -47,6 +47,7 @@ import (
 	"net/http"
 	"net/url"
 	"strings"
+	"sync"
 	"testing"
 	"time"
 
@@ -66,6 +67,128 @@ import (
 
 // longWait bounds every wait for something lal must do promptly (healthy: milliseconds).
 const longWait = 30 * time.Second
+
+// patience decides when waiting any longer for lal is pointless.  The hard limit is longWait (after notBefore, the time
+// lal is entitled to, e.g. its pull timeout).  The wait may end earlier - never before 2 s - once this process has
+// proven responsive twice, a second apart: a goroutine spawned now dials a private loopback listener and gets a byte
+// echoed, three times in a row, each within 100 ms.  What lal still owes then (a goroutine it spawned seconds ago
+// dialling loopback, closing a socket, queueing a notification) is the same kind of work, so it is stuck, not slow.
+// On an overloaded machine the probes fail and the full longWait applies.
+type patience struct {
+	start     time.Time
+	notBefore time.Duration
+	lastProbe time.Time
+	ok        int
+}
+
+func newPatience(notBefore time.Duration) *patience {
+	return &patience{start: time.Now(), notBefore: notBefore}
+}
+
+func (p *patience) waited() time.Duration { return time.Since(p.start).Round(time.Millisecond) }
+
+func (p *patience) over() bool {
+	el := time.Since(p.start)
+	if el > p.notBefore+longWait {
+		return true
+	}
+	if el < p.notBefore+2*time.Second || time.Since(p.lastProbe) < time.Second {
+		return false
+	}
+	p.lastProbe = time.Now()
+	if responsive() {
+		p.ok++
+	} else {
+		p.ok = 0
+	}
+	return p.ok >= 2
+}
+
+// patient polls cond until it holds or patience is over.
+func patient(p *patience, cond func() bool) bool {
+	for {
+		if cond() {
+			return true
+		}
+		if p.over() {
+			return cond()
+		}
+		time.Sleep(300 * time.Microsecond)
+	}
+}
+
+var probe struct {
+	once sync.Once
+	addr string
+}
+
+func responsive() bool {
+	probe.once.Do(func() {
+		ln, err := net.Listen("tcp", "127.0.0.1:0")
+		if err != nil {
+			return
+		}
+		probe.addr = ln.Addr().String()
+		go func() {
+			for {
+				c, err := ln.Accept()
+				if err != nil {
+					return
+				}
+				go func() {
+					b := make([]byte, 1)
+					if _, err := c.Read(b); err == nil {
+						_, _ = c.Write(b)
+					}
+					_ = c.Close()
+				}()
+			}
+		}()
+	})
+	if probe.addr == "" {
+		return false
+	}
+	for i := 0; i < 3; i++ {
+		done := make(chan bool, 1)
+		t0 := time.Now()
+		go func() {
+			c, err := net.Dial("tcp", probe.addr)
+			if err != nil {
+				done <- false
+				return
+			}
+			defer c.Close()
+			_, _ = c.Write([]byte{1})
+			b := make([]byte, 1)
+			_, err = c.Read(b)
+			done <- err == nil
+		}()
+		select {
+		case ok := <-done:
+			if !ok || time.Since(t0) > 100*time.Millisecond {
+				return false
+			}
+		case <-time.After(100 * time.Millisecond):
+			return false
+		}
+	}
+	return true
+}
+
+func acceptPatient(st *stub.RtmpStub, p *patience) *stub.Conn {
+	var c *stub.Conn
+	patient(p, func() bool { c = st.TryAccept(); return c != nil })
+	return c
+}
+
+func closedPatient(c *stub.Conn, p *patience) bool {
+	for !c.WaitPeerClose(100 * time.Millisecond) {
+		if p.over() {
+			return c.WaitPeerClose(time.Millisecond)
+		}
+	}
+	return true
+}
 
 // =====================================================================================================
 // push-rules
@@ -355,12 +478,13 @@ func runPush(c PushCase) *pbt.Violation {
 		}
 		// ---- first round: one attempt per target, without any tick -------------------------------------
 		for ti, t := range w.targets {
-			cn := t.st.Accept(longWait)
+			pt := newPatience(0)
+			cn := acceptPatient(t.st, pt)
 			if cn == nil {
 				if v := s.PanicViolation(); v != nil {
 					return v
 				}
-				return pbt.V("push/no-session-for-target", "publisher %d (%s) was accepted but target %d saw no push connection within %v", pi, ps.Kind, ti, longWait)
+				return pbt.V("push/no-session-for-target", "publisher %d (%s) was accepted but target %d saw no push connection within %v", pi, ps.Kind, ti, pt.waited())
 			}
 			if v := w.incoming(ti, t, cn, wantName, pi); v != nil {
 				return v
@@ -375,7 +499,7 @@ func runPush(c PushCase) *pbt.Violation {
 		}
 		// ---- refused targets are re-attempted on later ticks ----------------------------------------------
 		if ps.LeaveAt == 0 {
-			deadline := time.Now().Add(longWait)
+			pt := newPatience(0)
 			for len(w.pending()) > 0 {
 				w.doTick()
 				got := false
@@ -391,8 +515,10 @@ func runPush(c PushCase) *pbt.Violation {
 				if v := s.PanicViolation(); v != nil {
 					return v
 				}
-				if !got && time.Now().After(deadline) {
-					return pbt.V("push/failed-target-not-retried", "publisher %d: targets %v refused their attempt, the harness ticked the group for %v (%d ticks) but no new attempt arrived", pi, w.pending(), longWait, w.tick)
+				if got {
+					pt = newPatience(0)
+				} else if pt.over() {
+					return pbt.V("push/failed-target-not-retried", "publisher %d: targets %v refused their attempt, the harness ticked the group for %v (%d ticks) but no new attempt arrived", pi, w.pending(), pt.waited(), w.tick)
 				}
 			}
 			for i := 0; i < ps.Ticks; i++ {
@@ -407,17 +533,14 @@ func runPush(c PushCase) *pbt.Violation {
 				}
 			}
 			if g := s.SM.GetGroup("", w.name); g != nil {
-				deadline = time.Now().Add(longWait)
-				for g.OutSessionNum() != nEst {
-					if time.Now().After(deadline) {
-						return pbt.V("push/session-count-differs", "publisher %d: %d of %d targets answered publish, but %v later lal counts %d push sessions on the stream", pi, nEst, len(w.targets), longWait, g.OutSessionNum())
-					}
-					time.Sleep(300 * time.Microsecond)
+				pt = newPatience(0)
+				if !patient(pt, func() bool { return g.OutSessionNum() == nEst }) {
+					return pbt.V("push/session-count-differs", "publisher %d: %d of %d targets answered publish, but %v later lal counts %d push sessions on the stream", pi, nEst, len(w.targets), pt.waited(), g.OutSessionNum())
 				}
 			}
 			// ---- light content check: headers + a marker reach every established target ---------------------
 			if pub != nil {
-				deadline = time.Now().Add(longWait)
+				pt = newPatience(0)
 				for ti, t := range w.targets {
 					if !t.established {
 						continue
@@ -436,8 +559,8 @@ func runPush(c PushCase) *pbt.Violation {
 					}
 					var mk []byte
 					for mk == nil {
-						if time.Now().After(deadline) {
-							return pbt.V("push/media-not-forwarded", "publisher %d: target %d is established but none of the %d markers sent by the publisher arrived within %v (%d media messages received; last: %s)", pi, ti, len(sent), longWait, len(t.live.MediaSnapshot()), describe(t.live.MediaSnapshot()))
+						if len(sent) > 0 && pt.over() {
+							return pbt.V("push/media-not-forwarded", "publisher %d: target %d is established but none of the %d markers sent by the publisher arrived within %v (%d media messages received; last: %s)", pi, ti, len(sent), pt.waited(), len(t.live.MediaSnapshot()), describe(t.live.MediaSnapshot()))
 						}
 						w.marker++
 						m := []byte{0xAF, 1, 0xC1, 0x17, byte(w.marker >> 16), byte(w.marker >> 8), byte(w.marker), 0x55}
@@ -488,34 +611,20 @@ func runPush(c PushCase) *pbt.Violation {
 			if t.held && !t.established {
 				// the target answers publish only now: the session must not outlive the publisher
 				_ = t.live.AcceptPublish()
-				closed := make(chan bool, 1)
-				go func(cn *stub.Conn) { closed <- cn.WaitPeerClose(longWait) }(t.live)
 				g := s.SM.GetGroup("", w.name)
-				deadline := time.Now().Add(longWait)
-				done := false
-				for !done {
-					select {
-					case ok := <-closed:
-						if !ok {
-							return pbt.V("push/session-outlives-publisher", "publisher %d: target %d answered publish after the publisher had left; the push session was still open %v later", pi, ti, longWait)
-						}
-						done = true
-					case <-time.After(2 * time.Millisecond):
-						if g != nil && g.OutSessionNum() > 0 {
-							return pbt.V("push/session-outlives-publisher", "publisher %d: target %d answered publish after the publisher had left and lal attached the push session to the stream, which has no publisher (out sessions = %d)", pi, ti, g.OutSessionNum())
-						}
-						if time.Now().After(deadline.Add(time.Second)) {
-							lalclient.Harness("push hold: neither closed nor attached")
-						}
+				pt := newPatience(0)
+				for !t.live.WaitPeerClose(2 * time.Millisecond) {
+					if g != nil && g.OutSessionNum() > 0 {
+						return pbt.V("push/session-outlives-publisher", "publisher %d: target %d answered publish after the publisher had left and lal attached the push session to the stream, which has no publisher (out sessions = %d)", pi, ti, g.OutSessionNum())
+					}
+					if pt.over() {
+						return pbt.V("push/session-outlives-publisher", "publisher %d: target %d answered publish after the publisher had left; the push session was still open %v later", pi, ti, pt.waited())
 					}
 				}
 			} else if t.established {
-				deadline := time.Now().Add(longWait)
-				for !t.live.PeerClosed() {
-					if time.Now().After(deadline) {
-						return pbt.V("push/session-outlives-publisher", "publisher %d left but the push session to target %d was still open %v later", pi, ti, longWait)
-					}
-					time.Sleep(300 * time.Microsecond)
+				pt := newPatience(0)
+				if !patient(pt, t.live.PeerClosed) {
+					return pbt.V("push/session-outlives-publisher", "publisher %d left but the push session to target %d was still open %v later", pi, ti, pt.waited())
 				}
 			}
 			t.live.Close()
@@ -916,18 +1025,11 @@ func (w *pullWorld) pullEvents() (starts, stops []string) {
 }
 
 // waitEvents waits until at least nStarts / nStops pull notifications have been recorded.
-func (w *pullWorld) waitEvents(nStarts, nStops int, d time.Duration) bool {
-	deadline := time.Now().Add(d)
-	for {
+func (w *pullWorld) waitEvents(nStarts, nStops int, p *patience) bool {
+	return patient(p, func() bool {
 		st, sp := w.pullEvents()
-		if len(st) >= nStarts && len(sp) >= nStops {
-			return true
-		}
-		if time.Now().After(deadline) {
-			return false
-		}
-		time.Sleep(200 * time.Microsecond)
-	}
+		return len(st) >= nStarts && len(sp) >= nStops
+	})
 }
 
 // created notes that the stream's group came into existence during [t0,t1].
@@ -973,7 +1075,8 @@ func (w *pullWorld) inflightUnsafe() bool {
 func (w *pullWorld) expectAttempt(started time.Time, apiID string) *pbt.Violation {
 	w.m.attempt()
 	w.nAttempts++
-	oc := w.origin.Accept(longWait)
+	pt := newPatience(0)
+	oc := acceptPatient(w.origin, pt)
 	if oc == nil {
 		if v := w.s.PanicViolation(); v != nil {
 			return v
@@ -983,7 +1086,7 @@ func (w *pullWorld) expectAttempt(started time.Time, apiID string) *pbt.Violatio
 			w.abandon("attempt-ended-before-it-reached-the-origin")
 			return nil
 		}
-		return pbt.V("pull/no-attempt", "%s: the rules demand a connection attempt (enabled, no input, none in flight, budget %d with %d used, consumers %d) but the origin saw none within %v and no attempt was reported as stopped", w.step, w.m.budget, w.m.used-1, w.m.subs, longWait)
+		return pbt.V("pull/no-attempt", "%s: the rules demand a connection attempt (enabled, no input, none in flight, budget %d with %d used, consumers %d) but the origin saw none within %v and no attempt was reported as stopped", w.step, w.m.budget, w.m.used-1, w.m.subs, pt.waited())
 	}
 	at := &attempt{n: w.nAttempts, conn: oc, started: started, outcome: w.nextOutcome(), apiID: apiID}
 	if at.outcome == ocRefuse {
@@ -1021,11 +1124,17 @@ func (w *pullWorld) attemptEnded(at *attempt, why string) *pbt.Violation {
 	w.m.inflight = false
 	w.inflight = nil
 	w.nStops++
-	if !w.waitEvents(w.nStarts, w.nStops, w.timeout()+longWait) {
+	// lal is entitled to its pull timeout, counted from the moment the attempt started
+	left := time.Until(at.started.Add(w.timeout()))
+	if left < 0 {
+		left = 0
+	}
+	pt := newPatience(left)
+	if !w.waitEvents(w.nStarts, w.nStops, pt) {
 		if v := w.s.PanicViolation(); v != nil {
 			return v
 		}
-		return pbt.V("pull/attempt-end-not-reported", "%s: attempt %d ended (%s) but no stop notification arrived within %v", w.step, at.n, why, w.timeout()+longWait)
+		return pbt.V("pull/attempt-end-not-reported", "%s: attempt %d ended (%s) but no stop notification arrived within %v (pull timeout %v)", w.step, at.n, why, time.Since(at.started).Round(time.Millisecond), w.timeout())
 	}
 	starts, stops := w.pullEvents()
 	if len(starts) > w.nStarts {
@@ -1043,14 +1152,16 @@ func (w *pullWorld) attemptEnded(at *attempt, why string) *pbt.Violation {
 // sessionClosed: the attached pull session must be closed now (reason: window expired, API stop, kick, origin closed).
 func (w *pullWorld) sessionClosed(reason string) *pbt.Violation {
 	at := w.attached
-	if !at.conn.WaitPeerClose(longWait) {
-		return pbt.V("pull/session-not-closed/"+reason, "%s: the attached pull session %s must be closed (%s) but its connection to the origin was still open %v later", w.step, at.id, reason, longWait)
+	pt := newPatience(0)
+	if !closedPatient(at.conn, pt) {
+		return pbt.V("pull/session-not-closed/"+reason, "%s: the attached pull session %s must be closed (%s) but its connection to the origin was still open %v later", w.step, at.id, reason, pt.waited())
 	}
 	w.attached = nil
 	w.m.attached = false
 	w.nStops++
-	if !w.waitEvents(w.nStarts, w.nStops, longWait) {
-		return pbt.V("pull/stop-not-reported", "%s: pull session %s was closed (%s) but no stop notification arrived within %v", w.step, at.id, reason, longWait)
+	pt = newPatience(0)
+	if !w.waitEvents(w.nStarts, w.nStops, pt) {
+		return pbt.V("pull/stop-not-reported", "%s: pull session %s was closed (%s) but no stop notification arrived within %v", w.step, at.id, reason, pt.waited())
 	}
 	_, stops := w.pullEvents()
 	if got := stops[w.nStops-1]; got != at.id {
@@ -1086,7 +1197,7 @@ func (w *pullWorld) resolve() *pbt.Violation {
 		return w.stubTrouble(at, "play answer", err)
 	}
 	may := w.m.mayAttach()
-	deadline := time.Now().Add(longWait)
+	pt := newPatience(0)
 	for {
 		starts, stops := w.pullEvents()
 		if len(starts) > w.nStarts {
@@ -1107,6 +1218,11 @@ func (w *pullWorld) resolve() *pbt.Violation {
 			w.nStarts++
 			w.inflight, w.attached = nil, at
 			w.m.inflight, w.m.attached = false, true
+			if time.Since(at.started) > w.timeout()*8/10 {
+				// lal's pull timeout may have fired together with the answer (its select picks either): not a state to build on
+				w.abandon("harness-too-slow-for-pull-timeout")
+				return nil
+			}
 			break
 		}
 		if len(stops) > w.nStops {
@@ -1121,11 +1237,11 @@ func (w *pullWorld) resolve() *pbt.Violation {
 			}
 			return w.attemptEnded(at, "answered play, but the pull may no longer attach")
 		}
-		if time.Now().After(deadline) {
+		if pt.over() {
 			if v := w.s.PanicViolation(); v != nil {
 				return v
 			}
-			return pbt.V("pull/answer-ignored", "%s: the origin answered play for attempt %d but lal neither attached nor stopped the session within %v", w.step, at.n, longWait)
+			return pbt.V("pull/answer-ignored", "%s: the origin answered play for attempt %d but lal neither attached nor stopped the session within %v", w.step, at.n, pt.waited())
 		}
 		time.Sleep(200 * time.Microsecond)
 	}
@@ -1136,7 +1252,12 @@ func (w *pullWorld) resolve() *pbt.Violation {
 		return pbt.V("pull/session-closed-early", "%s: pull session %s attached but its connection is closed: %v", w.step, w.attached.id, err)
 	}
 	for i, sb := range w.subs {
-		if sb.WaitFor(func(r lalclient.Rec) bool { return bytes.Equal(r.Payload, mk) }, longWait) < 0 {
+		pt := newPatience(0)
+		got := false
+		for !got && !sb.Ended() && !pt.over() {
+			got = sb.WaitFor(func(r lalclient.Rec) bool { return bytes.Equal(r.Payload, mk) }, 100*time.Millisecond) >= 0
+		}
+		if !got {
 			return pbt.V("pull/media-not-delivered", "%s: a marker streamed by the origin through pull session %s did not reach subscriber %d (%s)", w.step, w.attached.id, i, sb.Kind)
 		}
 	}
@@ -1704,6 +1825,6 @@ func classifyPull(c PullCase) (bool, []string) {
 func TestPullRules(t *testing.T) {
 	pbt.Run(t, pbt.Spec[PullCase]{
 		ID: "C17", Name: "pull-rules", Gen: genPullCase, Run: runPull, Classify: classifyPull,
-		Quick: 300, Thorough: 2500, Isolate: true,
+		Quick: 300, Thorough: 1500, Isolate: true,
 	})
 }
